@@ -18,6 +18,9 @@ STRUCT = ('path', 'complete', 'star_u', 'star_v', 'perfect_noise', 'crown', 'two
 
 
 def cases(tier, seed):
+    _r = np.random.default_rng(seed + 77)
+    for _k in range(30 if tier == 'quick' else 200):
+        yield dict(kind='reuse', count=25, seed=int(_r.integers(1 << 31)))
     rng = np.random.default_rng(seed)
     N = 4 if tier == 'quick' else 5
     for nu in range(1, N + 1):
@@ -199,6 +202,46 @@ def messy(rng, edges):
     return [out[i] for i in rng.permutation(len(out))]
 
 
+def check_reuse(rng, count, fail):
+    """history clause: a solver object that is called again (after its graph was replaced or edited) still returns a
+    maximum matching of the graph it now refers to -- every call starts from an empty matching"""
+    for r in range(count):
+        nu, nv = int(rng.integers(1, 6)), int(rng.integers(1, 6))
+        def rnd():
+            return [(u, v) for u in range(nu) for v in range(nv) if rng.random() < 0.45]
+        e1, e2 = rnd(), rnd()
+        G1 = bg.BipartiteGraph(nu, nv, e1)
+        hk = bg.HopcroftKarp(G1)
+        try:
+            hk()
+            if r % 2 == 0:
+                hk.graph = bg.BipartiteGraph(nu, nv, e2)
+                edges = e2
+            else:
+                # remove an edge from the adjacency lists of the graph in place
+                edges = list(e1)
+                if edges:
+                    u, v = edges.pop(int(rng.integers(len(edges))))
+                    G1.adj_u[u].remove(v); G1.adj_v[v].remove(u)
+            m = hk()
+        except Exception as e:
+            if type(e).__name__ == 'CaseTimeout':
+                raise
+            fail('returns', 'HopcroftKarp.reuse', f'second call raised {type(e).__name__}: {e}')
+            continue
+        adj = [[] for _ in range(nu)]
+        for (u, v) in dict.fromkeys(edges):
+            adj[u].append(v)
+        opt = kuhn_max_matching(nu, nv, adj)
+        pairs = [(int(u), int(v)) for (u, v) in m]
+        if any(p not in set(edges) for p in pairs):
+            fail('matching_edges', 'HopcroftKarp.reuse', f'{nu}x{nv}: second call on a changed graph returned the non-edge(s) {[p for p in pairs if p not in set(edges)]}; first graph {e1}, now {edges}')
+        elif len({u for u, _ in pairs}) != len(pairs) or len({v for _, v in pairs}) != len(pairs):
+            fail('matching_disjoint', 'HopcroftKarp.reuse', f'{nu}x{nv}: matching {pairs} shares a vertex')
+        elif len(pairs) != opt:
+            fail('matching_maximum', 'HopcroftKarp.reuse', f'{nu}x{nv}: second call returned size {len(pairs)}, maximum is {opt}; first graph {e1}, now {edges}')
+
+
 def run_case(c):
     rng = np.random.default_rng(c['seed'])
     fails = []
@@ -206,6 +249,9 @@ def run_case(c):
     def fail(clause, fn, detail):
         if len(fails) < 6:
             fails.append(dict(clause=clause, detail=detail, signature=f'{fn}:{clause}'))
+    if c['kind'] == 'reuse':
+        check_reuse(rng, c['count'], fail)
+        return dict(failures=fails, nontrivial=True, key=json.dumps(c, sort_keys=True))
     if c['kind'] == 'enum':
         nu, nv = c['nu'], c['nv']
         allp = [(u, v) for u in range(nu) for v in range(nv)]
